@@ -5,9 +5,12 @@ mod gen;
 mod jtree;
 mod ops_capi;
 mod ops_defs;
+mod ops_dis;
 mod ops_enc;
 mod ops_json;
+mod ops_kinds;
 mod ops_ns;
+mod ops_order;
 mod ops_time;
 mod ops_total;
 mod ops_units;
@@ -34,6 +37,9 @@ fn dispatch(vec: &J, out: &mut Out, wk: &mut Option<worker::Worker>) -> Result<(
         "ns" => ops_ns::run(vec, out),
         "capi" => ops_capi::run(vec, out),
         "units" => ops_units::run(vec, out),
+        "ord" => ops_order::run(vec, out),
+        "dis" => ops_dis::run(vec, out),
+        "kind" => ops_kinds::run(vec, out),
         "time" => ops_time::run(vec, out),
         "filter" => ops_filter::run(vec, out, wk.get_or_insert_with(worker::Worker::new)),
         "dec" | "stab" => ops_total::run(vec, out, wk.get_or_insert_with(worker::Worker::new)),
@@ -87,6 +93,9 @@ fn main() {
                     }
                 }
                 "fuzz" => ops_total::rec_fuzz(&mut out, seed, n),
+                "kinds" => ops_kinds::rec(&mut out, seed, n),
+                "dis" => ops_dis::rec(&mut out, seed, n),
+                "order" => ops_order::rec(&mut out, seed, n),
                 "units" => ops_units::rec(&mut out, seed, n > 1),
                 "capi" => {
                     let len: usize = arg(&args, "--len").and_then(|s| s.parse().ok()).unwrap_or(30);
